@@ -128,12 +128,7 @@ func (obj HashTable) LoadForm() Object {
 		List{List{tsym, List{Symbol("make-hash-table")}}},
 	}
 	for k, v := range obj {
-		switch k.(type) {
-		case Symbol:
-			form = append(form, List{Symbol("setf"), List{Symbol("gethash"), List{quoteSymbol, k}, tsym}, LoadFormOf(v)})
-		case String, Number, nil:
-			form = append(form, List{Symbol("setf"), List{Symbol("gethash"), k, tsym}, LoadFormOf(v)})
-		}
+		form = append(form, List{Symbol("setf"), List{Symbol("gethash"), LoadFormOf(k), tsym}, LoadFormOf(v)})
 	}
 	form = append(form, Symbol("table"))
 
